@@ -188,7 +188,22 @@ class BufSeq:
             raise Unsupported('reduce function is not x + len(y)')
         return simp(zint(init) + self.total())
 
+    def elems_equal(self, heap, other, upto):
+        """for every j in [0, upto): element j of self and of other are byte strings of equal length and content"""
+        j, k = z3.Int('j!leq'), z3.Int('k!leq')
+        la, lb = z3.Select(self.lens, j), z3.Select(other.lens, j)
+        ra = z3.Select(z3.Select(heap, z3.Select(self.cells, j)), z3.Select(self.starts, j) + k)
+        rb = z3.Select(z3.Select(heap, z3.Select(other.cells, j)), z3.Select(other.starts, j) + k)
+        return z3.ForAll([j], z3.Implies(z3.And(j >= 0, j < zint(upto)), z3.And(
+            la == lb, z3.ForAll([k], z3.Implies(z3.And(k >= 0, k < la), ra == rb)))))
+
     def compare(self, it, op, other, node):
+        """list == list / list != list: same length and element-wise equal byte strings (bytes, bytearray and memoryview
+        elements compare by content in CPython)"""
+        import ast as _ast
+        if isinstance(op, (_ast.Eq, _ast.NotEq)) and isinstance(other, BufSeq):
+            eq = z3.And(zint(self.n) == zint(other.n), self.elems_equal(it.run.heap, other, self.n))
+            return eq if isinstance(op, _ast.Eq) else z3.Not(eq)
         raise Unsupported('comparison of symbolic lists')
 
 
